@@ -335,6 +335,7 @@ EXH_OPS = [
     {"op": "filter", "axis": "observation", "mask": M1, "invert": True,
      "inplace": False, "how": "ids"},
     {"op": "drop_all", "axis": "sample", "inplace": False},
+    {"op": "drop_all", "axis": "observation", "inplace": True},
     {"op": "remove_empty", "axis": "whole", "inplace": True},
     {"op": "remove_empty", "axis": "sample", "inplace": False},
     {"op": "head", "n": 2, "m": 2},
@@ -381,6 +382,8 @@ EXH_OPS = [
      "remove_empty": False, "ignore_none": False},
     {"op": "partition", "axis": "observation", "f": "none_some", "pick": 1,
      "remove_empty": True, "ignore_none": True},
+    {"op": "partition", "axis": "observation", "f": "const", "pick": 0,
+     "remove_empty": False, "ignore_none": False},
     {"op": "merge", "other": OTH, "sample": "union", "observation": "union"},
     {"op": "merge", "other": OTH, "sample": "intersection",
      "observation": "union"},
